@@ -138,7 +138,7 @@ LB = ["load", "worksteal", "loadscope", "loadfile", "loadgroup"]
 
 PROPS: dict[str, dict[str, Any]] = {
     "C01": {
-        "components": [sched(LB, crash=0.0), system(["plain"], 400, 8000)],
+        "components": [sched(LB, crash=0.0), system(["plain"], 400, 8000), worker(quick=400, thorough=8000)],
         "assumptions": ["whole-system composition (worker + channels) is argued in DESIGN §5 C01 from the worker theorems and FIFO delivery"],
     },
     "C02": {
@@ -178,7 +178,7 @@ PROPS: dict[str, dict[str, Any]] = {
     },
     "C16": {
         "components": [sched(["load", "worksteal", "loadscope", "loadfile", "loadgroup", "each"], crash=0.08),
-                       system(["plain", "crash", "stop", "each", "budget"], 400, 8000)],
+                       system(["plain", "crash", "stop", "each", "budget", "earlystop"], 480, 9000)],
         "assumptions": ["theorems cover load and worksteal; the loadscope family and each are covered by the correspondence + wire monitors only",
                         "load: the first schedule() does not check shutting_down (stated as hypothesis, witness proved)"],
     },
@@ -188,7 +188,7 @@ PROPS: dict[str, dict[str, Any]] = {
                         "the theorems are about the DSession model for an arbitrary scheduler; T2 replays every simulated run's controller events through that model"],
     },
     "C11": {
-        "components": [system(["stop", "collecterr", "stop"], 450, 9000)],
+        "components": [system(["stop", "collecterr", "stop", "earlystop"], 480, 9000)],
         "assumptions": ["pytest's own per-worker --maxfail counting and the mapping of Interrupted to exit status 2 (wrap_session) are pytest's; the simulated workers follow them",
                         "a receiver thread flipping _down in the middle of a handler of the main loop is not exhibited by the simulation"],
     },
@@ -209,7 +209,7 @@ PROPS: dict[str, dict[str, Any]] = {
                         "execnet's dumps/loads and the warnings module are exercised, not modelled; builtins.Warning is importable"],
     },
     "C17": {
-        "components": [system(["lifecycle", "budget", "crash", "lifecycle"], 450, 9000), receiver()],
+        "components": [system(["lifecycle", "budget", "crash", "lifecycle", "earlystop"], 500, 9000), receiver()],
         "assumptions": ["deaths are injected at: before workerready, during collection, right after collectionfinish, inside a test, between tests, instead of workerfinished; "
                         "an undecodable message is an unknown event name / a report that cannot be rebuilt / a non-tuple object",
                         "partial writes inside one execnet message and exceptions of the receiver thread itself are outside the model",
